@@ -161,6 +161,11 @@ def main(tier, seed):
         orders = []
         for f, insts in enumerate(pops):
             data, order = g.render(insts)
+            if f > 0 and k % 4 == 1:
+                # the appended file names the same schema in another conforming spelling (object identifier, letter case)
+                sp = r.choice(["VERIF_ALL { 1 0 10303 999 1 0 1 }", "verif_all", "Verif_All"])
+                data = data.replace(b"FILE_SCHEMA(('VERIF_ALL'));", ("FILE_SCHEMA(('%s'));" % sp).encode(), 1)
+                shape_hist["schema_name_spelled_differently"] = shape_hist.get("schema_name_spelled_differently", 0) + 1
             path = os.path.join(wdir, "f%d.p21" % f)
             open(path, "wb").write(data)
             files.append(path)
